@@ -221,6 +221,68 @@ pub fn chain_boundary_plain(rng: &mut Rng, nblocks: usize, tail: usize) -> Vec<u
     v
 }
 
+/// Symbol-frequency ladders: k byte values whose counts grow geometrically (ratio 1.2 .. 3, Fibonacci included),
+/// so that the optimal Huffman code is as deep as the alphabet allows and the compressor's length limiter
+/// (15 bits for literal/length and distance codes, 7 for the code-length code) has work to do; the rarest
+/// symbols are often placed next to each other (adjacent long codes in the bit writer).
+pub fn ladder(rng: &mut Rng, max_len: usize) -> Vec<u8> {
+    let k = rng.pick(&[2usize, 3, 8, 9, 10, 15, 16, 17, 18, 19, 20, 24, 30, 40]);
+    let ratio = rng.pick(&[1.2f64, 1.4, 1.618, 1.618, 2.0, 2.0, 3.0]);
+    let mut syms: Vec<u8> = Vec::new();
+    while syms.len() < k {
+        let b = rng.below(256) as u8;
+        if !syms.contains(&b) {
+            syms.push(b);
+        }
+    }
+    let mut counts: Vec<usize> = Vec::new();
+    let mut c = 1.0f64;
+    let mut total = 0usize;
+    for _ in 0..k {
+        let n = (c as usize).max(1);
+        if total + n > max_len {
+            break;
+        }
+        counts.push(n);
+        total += n;
+        c *= ratio;
+        if rng.chance(1, 6) {
+            c += 1.0;
+        }
+    }
+    // body: everything but the rarest few, shuffled
+    let rare_n = counts.len().min(rng.range(0, 16));
+    let mut body: Vec<u8> = Vec::with_capacity(total);
+    for (i, &n) in counts.iter().enumerate().skip(rare_n) {
+        for _ in 0..n {
+            body.push(syms[i]);
+        }
+    }
+    for i in (1..body.len()).rev() {
+        let j = rng.usize_below(i + 1);
+        body.swap(i, j);
+    }
+    // the rarest symbols in one cluster at a random place (or shuffled in as well)
+    let mut rare: Vec<u8> = Vec::new();
+    for (i, &n) in counts.iter().enumerate().take(rare_n) {
+        for _ in 0..n {
+            rare.push(syms[i]);
+        }
+    }
+    if rng.chance(1, 3) {
+        for b in rare {
+            let at = rng.usize_below(body.len() + 1);
+            body.insert(at, b);
+        }
+    } else {
+        let at = rng.usize_below(body.len() + 1);
+        let tail = body.split_off(at);
+        body.extend_from_slice(&rare);
+        body.extend_from_slice(&tail);
+    }
+    body
+}
+
 /// 1..4 concatenated segments.
 pub fn plaintext(rng: &mut Rng, total: usize) -> Vec<u8> {
     let nseg = if total < 8 { 1 } else { rng.range(1, 4) };
